@@ -25,7 +25,7 @@ import (
 //     (result order = row order of the model; the oracles compare sets);
 //   * database/sql's argument conversion (uint8/int -> int64, uint64 with the high bit set is refused, []byte -> blob,
 //     a zero-length or nil []byte is bound as a zero-length blob) and Scan conversion (ErrNoRows and errors leave the
-//     destinations untouched, a zero-length blob is delivered as a nil []byte, int64 -> *int64/*int/*uint8/*uint64 with
+//     destinations untouched, a zero-length blob is delivered as nil or as []byte{} (both explored), int64 -> *int64/*int/*uint8/*uint64 with
 //     range checks, a fresh copy of the bytes for *[]byte);
 //   * transactions: BeginTx takes a private copy of the file, statements bound with Tx.StmtContext / Tx.Exec work on
 //     the copy, Commit of a write transaction replaces the file, Rollback drops the copy; a read-only transaction
@@ -113,13 +113,14 @@ func (r zzqResult) LastInsertId() (int64, error) { return 0, nil }
 func (r zzqResult) RowsAffected() (int64, error) { return r.n, nil }
 
 var (
-	zzqDBs      []*zzqDB
-	zzqTxns     []*zzqTxn     // every transaction begun on this path
-	zzqLive     []*zzqTxn     // the ones not yet committed / rolled back
-	zzqPrepared []*zzqStmtRec // statements prepared on a handle
-	zzqBound    []*zzqStmtRec // statements bound into a transaction (Tx.StmtContext)
-	zzqCursors  []*zzqCursor
-	zzqNOpen    int // *sql.Rows not yet closed
+	zzqDBs       []*zzqDB
+	zzqTxns      []*zzqTxn     // every transaction begun on this path
+	zzqLive      []*zzqTxn     // the ones not yet committed / rolled back
+	zzqPrepared  []*zzqStmtRec // statements prepared on a handle
+	zzqBound     []*zzqStmtRec // statements bound into a transaction (Tx.StmtContext)
+	zzqCursors   []*zzqCursor
+	zzqNOpen     int // *sql.Rows not yet closed
+	zzqEmptyMode int // how the driver delivers a zero-length blob: 0 not chosen yet, 1 as []byte{}, 2 as nil
 	// statistics the harnesses may assert on
 	zzqBlocked int // operations that needed a second connection on a single-connection handle (would block for ever)
 
@@ -861,7 +862,20 @@ func zzqAssign(dest any, c zzqCell) error {
 			zzqUnmodelled("Scan of an INTEGER into *[]byte")
 		}
 		if len(c.b) == 0 {
-			*d = nil // a zero-length blob comes back from the driver as a nil []byte
+			// a zero-length blob: a driver that asks sqlite3_column_blob gets a NULL pointer and hands back a nil
+			// []byte (what the nil checks in Get / Export are written for); ncruces v0.30.5 hands back []byte{}.
+			// Both are explored: one arbitrary choice per path, taken when the first empty blob is scanned.
+			if zzqEmptyMode == 0 {
+				zzqEmptyMode = 1
+				if rt.Fork("driver-delivers-an-empty-blob-as-nil") {
+					zzqEmptyMode = 2
+				}
+			}
+			if zzqEmptyMode == 2 {
+				*d = nil
+			} else {
+				*d = []byte{}
+			}
 		} else {
 			*d = append([]byte{}, c.b...)
 		}
